@@ -259,15 +259,31 @@ def parse_transcript(text):
     return res
 
 
-def run_oracle(casefile, prof, timeout=3000):
-    with open(casefile) as f:
-        data = f.read()
+def _oracle_once(data, prof, timeout):
     p = subprocess.run(["bash", "-c", "ulimit -s unlimited 2>/dev/null; exec %s %d" %
                         (os.path.join(ORACLE_DIR, "oracle"), prof)],
                        input=data, stdout=subprocess.PIPE, stderr=subprocess.PIPE, text=True, timeout=timeout)
     if p.returncode != 0:
         raise RuntimeError("oracle failed: rc=%s %s" % (p.returncode, p.stderr[-2000:]))
     return parse_transcript(p.stdout)
+
+
+def run_oracle(casefile, prof, timeout=3000, shards=12):
+    """Runs the extracted model on every case (one line each); large case files are split over `shards`
+    concurrent oracle processes (interleaved, so that expensive families spread evenly)."""
+    with open(casefile) as f:
+        lines = f.read().splitlines()
+    if len(lines) < 4 * shards:
+        return _oracle_once("\n".join(lines) + "\n", prof, timeout)
+    from concurrent.futures import ThreadPoolExecutor
+    parts = [lines[k::shards] for k in range(shards)]
+    with ThreadPoolExecutor(max_workers=shards) as ex:
+        outs = list(ex.map(lambda part: _oracle_once("\n".join(part) + "\n", prof, timeout), parts))
+    res = {}
+    for k, out in enumerate(outs):
+        for j, ls in out.items():
+            res[k + j * shards] = ls
+    return res
 
 
 def run_harness(exe, casefile, ncases, place="end", timeout=3000):
@@ -309,23 +325,28 @@ def coq_crosscheck(cases, expected, prof, workdir, max_cases=60):
             else:
                 out.append("AN %s" % t)
         return out
-    lines = ["Require Import Bytes Outcome Render Api.", "From Coq Require Import String.",
-             "Open Scope string_scope.", "Open Scope N_scope."]
-    n = 0
+    head = ["Require Import Bytes Outcome Render Api.", "From Coq Require Import String.",
+            "Open Scope string_scope.", "Open Scope N_scope."]
+    goals = []
     for idx, case in cases[:max_cases]:
         toks = case.split()
         dom = toks[0]
         args = coq_arg(iter(toks[1:]))
         exp = expected.get(idx, [])
-        lines.append('Goal run_case %d "%s" [%s] = [%s].' % (
+        goals.append('Goal run_case %d "%s" [%s] = [%s].\nProof. vm_compute. reflexivity. Qed.' % (
             prof, dom, "; ".join(args), "; ".join('"%s"' % e.replace('"', '""') for e in exp)))
-        lines.append("Proof. vm_compute. reflexivity. Qed.")
-        n += 1
-    f = os.path.join(workdir, "cases_sample.v")
-    with open(f, "w") as fh:
-        fh.write("\n".join(lines) + "\n")
-    rc, out = sh(["coqc", "-noglob"] + coq_flags() + [f], cwd=workdir, timeout=1200)
-    return rc == 0, n, out
+    n = len(goals)
+    shards = 8 if n >= 16 else 1
+
+    def one(k):
+        f = os.path.join(workdir, "cases_sample%d.v" % k)
+        with open(f, "w") as fh:
+            fh.write("\n".join(head + goals[k::shards]) + "\n")
+        return sh(["coqc", "-noglob"] + coq_flags() + [f], cwd=workdir, timeout=1200)
+    from concurrent.futures import ThreadPoolExecutor
+    with ThreadPoolExecutor(max_workers=shards) as ex:
+        rs = list(ex.map(one, range(shards)))
+    return all(rc == 0 for rc, _ in rs), n, "\n".join(out for rc, out in rs if rc != 0)
 
 
 def case_hash(lines):
